@@ -39,3 +39,18 @@ META["C01"] = {
     "text": "Exploration, boundary-directed: per codec (bolt, boltv2, dubbo, dubbo-thrift, tars) 6000 (60000) generated well-formed frames — class/header/body lengths from {0,1,255..257,65535..65537,1 MiB,random}, fixed fields at {0,1,max,random}, request ids at the wrap points, heartbeats/one-way/responses — go through the real Decode/SetRequestId/Encode; checked: byte identity outside the id field, id patched, buffer consumed exactly, encoded buffer and body unchanged after the read buffer is overwritten, and frames mutated through the header/body API re-encode to bytes that an independent parser decodes to exactly the modified content with consistent length fields (or Encode errors).",
     "note": "Reference builders use dubbo-go-hessian2 / apache thrift / TarsGo for payloads; 4 GiB length fields are exercised only as 'announced, not delivered' (C08). Dubbo requests with a non-hessian serialization id are documented as unsupported and not generated.",
 }
+
+META["C07"] = {
+    "engine": "vworker",
+    "design_ref": "DESIGN.md §3 C07",
+    "technique": "self-differential (chunked vs whole delivery) through the real stream connection's Dispatch plus an independent reference framer for frame boundaries and buffer accounting; exhaustive 1-cut/2-cut enumeration; prefix-exhaustive probing of protocol auto-detection",
+    "text": "Exploration with exhaustive sub-spaces: per codec 50 (400) streams of 1..6 generated frames are dispatched through the real xprotocol stream connection (server side incl. heartbeats; client side with registered streams) whole, with EVERY single cut (streams <= 600 B), EVERY pair of cuts (<= 120 B), byte-wise, and 6 random multi-cuts near frame boundaries: delivered (id, header view, body) sequences must equal whole delivery and the reference frame list; after every Dispatch the buffer must hold exactly the incomplete tail by the reference framer; a Dispatch that does not return is a violation. Auto-detection: every prefix (<= 400 B and the complete stream) of valid streams of 7 protocols, 3x each: Again* then Success(p) forever, never Failed.",
+    "note": "Component level uses a minimal fake api.Connection (records writes/closes); HTTP/1 and HTTP/2 extraction is exercised end-to-end through the running proxy (scenario engine) rather than by direct Dispatch.",
+}
+META["C15"] = {
+    "engine": "vworker",
+    "design_ref": "DESIGN.md §3 C15",
+    "technique": "set-algebra reference model of subset selection + fallback, and builder-vs-builder differential (filtering vs pre-indexed) over reachable answer sets, HostNum and IsExistsHosts",
+    "text": "Exploration with an exhaustive small universe: c15-model runs 20320 (203200) configurations — 0..12 hosts with partial/overlapping metadata over 3 keys x 3 values, all 127 selector sets x 3 fallback policies, default subsets incl. unmatched — each against 190 criteria (every key absent/x/y/z/unknown, unknown keys, nil); c15-exh enumerates completely a 2-key x 2-value universe (all host multisets up to 3 (5) shapes, all selector sets incl. empty selectors, policies, default subsets, 34 criteria). Both real builders are judged against the model and against each other; answer sets are collected over 8*|S| round-robin picks.",
+    "note": "All hosts healthy (health is C05). Nil/typed-nil criteria and empty criteria with an empty selector are judged by the builder differential only (statement leaves them open). Trusts router.NewMetadataMatchCriteriaImpl for building sorted criteria.",
+}
